@@ -603,6 +603,73 @@ struct MixedAll<T, N, A, U, Us...>
   }
 };
 
+// ---- group "mca": compound assignment whose right-hand side has another arithmetic type U ----------------
+// scalar = sn / sd and vector = bn[i] / sd, built in U (sd is a power of two: exact); families vs.ca.sx_<U>, vv.ca.sx_<U>
+template <typename T, typename U, class V, class VU>
+static void mcaOps(const Json &arg, Json &o)
+{
+  const std::string m = std::string(".ca.sx_") + TN<U>::name() + pad1<V>();
+  const V a = VX<V>::make(arg["a"]);
+  const U sd = sIn<U>(arg["sd"]);
+  const U s = sIn<U>(arg["sn"]) / sd;
+  VU b = VX<VU>::make(arg["bn"]);
+  b.x = b.x / sd;
+  b.y = b.y / sd;
+  for (int i = 2; i < (int)VX<VU>::N; ++i) (&b.x)[i] = (&b.x)[i] / sd;
+  {
+    V t = a;
+    t += s;
+    put(o, "add", "vs" + m, outv(t));
+  }
+  {
+    V t = a;
+    t -= s;
+    put(o, "sub", "vs" + m, outv(t));
+  }
+  {
+    V t = a;
+    t *= s;
+    put(o, "mul", "vs" + m, outv(t));
+  }
+  {
+    V t = a;
+    t /= s;
+    put(o, "div", "vs" + m, outv(t));
+  }
+  ModOp<T, U>::cavs(a, s, "vs" + m, o);
+  {
+    V t = a;
+    t += b;
+    put(o, "add", "vv" + m, outv(t));
+  }
+  {
+    V t = a;
+    t -= b;
+    put(o, "sub", "vv" + m, outv(t));
+  }
+  {
+    V t = a;
+    t *= b;
+    put(o, "mul", "vv" + m, outv(t));
+  }
+  {
+    V t = a;
+    t /= b;
+    put(o, "div", "vv" + m, outv(t));
+  }
+  ModOp<T, U>::cavv(a, b, "vv" + m, o);
+}
+template <typename T, typename U>
+static void mcaShapes(const Json &arg, Json &o)
+{
+  const int n = (int)arg["a"].size();
+  if (n == 2) mcaOps<T, U, vec_t<T, 2>, vec_t<U, 2>>(arg, o);
+  else if (n == 3) {
+    mcaOps<T, U, vec_t<T, 3>, vec_t<U, 3>>(arg, o);
+    mcaOps<T, U, vec_t<T, 3, true>, vec_t<U, 3, true>>(arg, o);
+  } else mcaOps<T, U, vec_t<T, 4>, vec_t<U, 4>>(arg, o);
+}
+
 // ---- group "tern" -------------------------------------------------------------------------------------
 template <typename T, class V>
 static void ternOps(const Json &arg, Json &o)
@@ -936,6 +1003,14 @@ struct TyOps : ITy
       if (n == 2) ternOps<T, V2>(arg, o);
       else if (n == 3) { ternOps<T, V3>(arg, o); ternOps<T, V3a>(arg, o); }
       else ternOps<T, V4>(arg, o);
+      return o;
+    }
+    if (a == "Mca") {
+      const std::string u = arg["u"].str();
+      if (u == "f") mcaShapes<T, float>(arg, o);
+      else if (u == "d") mcaShapes<T, double>(arg, o);
+      else if (u == "i") mcaShapes<T, int32_t>(arg, o);
+      else if (u == "l") mcaShapes<T, int64_t>(arg, o);
       return o;
     }
     if (a == "Conv") {
